@@ -2,7 +2,7 @@
 # mix entries: (profile, variant, share).  nontrivial: list of alternatives, each a list of "probe" or "probe>=N" terms.
 prop("DEV", mix=[("base", "default", 1.0)], quick_s=20, claims_all=True, rule="dev profile", nontrivial=[])
 
-prop("C01", also=["C04/wrong-response", "C04/missing-response"],
+prop("C01", opts={"memprop": "C01"}, also=["C04/wrong-response", "C04/missing-response"],
      mix=[("c01", "default", 3), ("c01", "small", 2), ("c01", "batch1", 1), ("base", "default", 1)],
      quick_mix=[("c01", "default", 2), ("c01", "small", 1)],
      quick_s=25, thorough_s=600,
@@ -11,7 +11,7 @@ prop("C01", also=["C04/wrong-response", "C04/missing-response"],
      nontrivial=[["notify_add"]],
      required_probes=["add_then_fetch", "notify_change", "notify_remove", "unfetch_with_live_elements", "owner_disconnect_with_subscribers", "multi_message_read"])
 
-prop("C03", also=["C14/wrong-deadline", "C14/early-expiry", "C14/no-timeout-answer", "C05/missing-response", "C02/unexpected-response", "C02/missing-response"],
+prop("C03", opts={"memprop": "C03"}, also=["C14/wrong-deadline", "C14/early-expiry", "C14/no-timeout-answer", "C05/missing-response", "C02/unexpected-response", "C02/missing-response"],
      mix=[("c03", "default", 3), ("c03", "small", 2), ("c03", "batch1", 1)],
      quick_mix=[("c03", "default", 2), ("c03", "small", 1)],
      quick_s=25, thorough_s=600,
@@ -20,7 +20,7 @@ prop("C03", also=["C14/wrong-deadline", "C14/early-expiry", "C14/no-timeout-answ
      nontrivial=[["owner_replied"], ["timed_out"], ["owner_left_with_inflight"]],
      required_probes=["owner_replied", "timed_out", "owner_left_with_inflight", "caller_left_with_inflight", "duplicate_reply", "forged_reply", "reply_unknown_or_late", "self_routed"])
 
-prop("C04",
+prop("C04", opts={"memprop": "C04"},
      mix=[("c04", "default", 3), ("c04", "small", 2)],
      quick_mix=[("c04", "default", 2), ("c04", "small", 1)],
      quick_s=25, thorough_s=600,
@@ -47,7 +47,7 @@ prop("C14",
      nontrivial=[["timer_armed", "timed_out"], ["timer_armed", "owner_replied"]],
      required_probes=["timed_out", "owner_replied", "timer_and_io_same_batch", "timer_and_disconnect_same_batch", "timeout_precedence:request", "timeout_precedence:element", "timeout_precedence:default", "timeout_refused", "expiry_after_resolution"])
 
-prop("C02", also=["C03/unexpected-response", "C03/missing-response", "C03/wrong-response", "C05/missing-response", "C14/no-timeout-answer", "C14/unexpected-response"],
+prop("C02", opts={"memprop": "C02"}, also=["C03/unexpected-response", "C03/missing-response", "C03/wrong-response", "C05/missing-response", "C14/no-timeout-answer", "C14/unexpected-response"],
      mix=[("c02", "default", 3), ("c02", "small", 1), ("base", "default", 1), ("base", "batch1", 0.5)],
      quick_mix=[("c02", "default", 2), ("base", "default", 1)],
      quick_s=25, thorough_s=600,
@@ -75,7 +75,7 @@ prop("C07", opts={"memprop": "C07"},
      nontrivial=[["timer_armed"], ["reauth_same_user"], ["reauth_other_user"], ["sigterm_mid_plan"], ["sigterm_inside_batch"], ["drop:length prefix above the maximum"], ["ws_upgraded"]],
      required_probes=["timer_armed", "timed_out", "owner_left_with_inflight", "sigterm_mid_plan", "sigterm_inside_batch", "sigterm_with_clients", "idle_baseline_checked", "exit_checked", "routing_table_full", "authenticated"])
 
-prop("C08",
+prop("C08", opts={"memprop": "C08"},
      mix=[("c08", "default", 3), ("c08", "localonly", 1.5), ("c08", "small", 1)],
      quick_mix=[("c08", "default", 2), ("c08", "localonly", 1)],
      quick_s=30, thorough_s=600,
@@ -85,7 +85,7 @@ prop("C08",
      nontrivial=[["authenticated", "setcall_unauthorized"], ["authenticated", "setcall_authorized"], ["authenticated", "notify_add"], ["wrong_password_or_user", "notify_add"]],
      required_probes=["authenticated", "wrong_password_or_user", "reauth_other_user", "reauth_same_user", "authenticate_after_fetch", "setcall_unauthorized", "setcall_authorized", "accepted:ws", "accepted:uds"])
 
-prop("C16",
+prop("C16", opts={"memprop": "C16"},
      mix=[("c16", "default", 3), ("c16", "small", 2), ("c16", "batch1", 0.5)],
      quick_mix=[("c16", "default", 2), ("c16", "small", 1)],
      quick_s=25, thorough_s=600,
